@@ -75,6 +75,19 @@ class GarbageCollector:
         """
         stats = {"data_files": 0, "manifest_files": 0, "manifest_lists": 0}
 
+        # 0. A version hint that names a metadata file which does not exist
+        # means the current metadata version is gone. refresh() would fall back
+        # to an OLDER version, whose snapshot list lacks the newest snapshots -
+        # their files would look like orphans. Reachability cannot be trusted.
+        hinted = self.metadata_manager._read_version_hint()
+        if hinted is not None and not self.storage.exists(
+            f"{self.metadata_manager.metadata_path}/{hinted[1]}"
+        ):
+            raise GarbageCollectionAborted(
+                f"Aborting GC: version hint names missing metadata file {hinted[1]!r}. "
+                f"Nothing was deleted."
+            )
+
         # 1. Refresh metadata to get latest view
         metadata = self.metadata_manager.refresh()
         if not metadata:
